@@ -4,6 +4,7 @@ import (
 	"fmt"
 	"math"
 	"math/rand"
+	"sort"
 	"strings"
 
 	"github.com/robfig/soy/data"
@@ -63,8 +64,14 @@ func funcLength(v []data.Value) data.Value {
 }
 
 func funcKeys(v []data.Value) data.Value {
-	var keys data.List
+	// sorted, so that rendering does not depend on Go's map iteration order.
+	var names []string
 	for k := range v[0].(data.Map) {
+		names = append(names, k)
+	}
+	sort.Strings(names)
+	var keys data.List
+	for _, k := range names {
 		keys = append(keys, data.String(k))
 	}
 	return keys
